@@ -78,8 +78,8 @@ def run(ctx: core.Ctx):
     # random longer series, large values
     for _ in range(ctx.budget(60, 600)):
         n = rng.choice([9, 36, 100, 400])
-        nd = rng.choice([-9999, 0, 32767])
-        dt = rng.choice(["int16", "float32", "int64"])
+        nd = rng.choice([-9999, 0, 32767, 2147483647, -2147483647, 999999999, -99999999])
+        dt = rng.choice(["int16", "float32", "int64"]) if abs(nd) <= 32767 else "int64"
         x = np.array([nd if rng.random() < 0.3 else rng.randint(-3000, 3000) for _ in range(n)], dtype=np.int64)
         x[x == nd] = nd
         w = rng.choice([1, 2, 3, n // 2, n - 1, n])
@@ -87,13 +87,14 @@ def run(ctx: core.Ctx):
         out = rolling_sum(x.astype(dt), float(w), float(nd))
         s, c = roll_expect(x[None, :], w, nd)
         got = out[w - 1:]
-        ok = np.where(c[0] == w, got == s[0], np.where(c[0] == 0, got == nd, (got == nd) | (got == s[0])))
+        ndf = np.float32(nd)           # the float32 output can only echo the sentinel rounded to float32
+        ok = np.where(c[0] == w, got == s[0], np.where(c[0] == 0, got == ndf, (got == ndf) | (got == s[0])))
         ctx.case(("rollrand", tuple(x), w, nd, dt), sample=None)
-        if not ok.all() or not (out[: w - 1] == nd).all():
+        if not ok.all() or not (out[: w - 1] == ndf).all():
             ctx.fail("rolling_sum", dict(xx=x.tolist(), window=w, nodata=nd, dtype=dt), out.tolist(),
                      dict(sum_valid=s[0].tolist(), n_valid=c[0].tolist()))
         a = ctx.driver.ask([f"rolling {core.iarr(x)} {w} {nd}"])[0]
-        if core.parse_arr(a.split()[1], int) != [int(v) for v in out]:
+        if [float(np.float32(v)) for v in core.parse_arr(a.split()[1], int)] != [float(v) for v in out]:
             ctx.disagree("F", "rolling_sum", dict(xx=x.tolist(), window=w, nodata=nd, dtype=dt), a, out.tolist())
 
     # ---- mean_grp
